@@ -294,6 +294,9 @@ def die_message(err):
     if not lines:
         return "nomsg"
     l = lines[-1]
+    m = re.search(r": (\w+): Assertion `(.*)' failed", l)
+    if m:   # glibc assert(): keep the function and the expression, not the build path and line number
+        return "assert@%s:%s" % (m.group(1), re.sub(r"[^A-Za-z0-9_<>=!&|+*/-]+", "", m.group(2))[:40])
     l = re.sub(r"\d+", "N", l)
     l = re.sub(r"[^A-Za-z_: ]+", "", l).strip().replace(" ", "_")
     return l[:60] or "nomsg"
